@@ -3,6 +3,7 @@ package main
 // Evaluation of contract expressions against a symbolic state.
 
 import (
+	"os"
 	"fmt"
 	"go/ast"
 	"go/constant"
@@ -145,7 +146,11 @@ func (e *Engine) eval(c *evalCtx, x Expr) Val {
 			}
 			return boolVal(q)
 		}
-		return boolVal(Exists(bnd, body))
+		q := Exists(bnd, body)
+		if q.Op == OExists {
+			quantInfo[q] = &qInfo{Vars: qvars, Body: body}
+		}
+		return boolVal(q)
 	case *ETypeAssert:
 		v := e.eval(c, n.X)
 		T := e.resolveType(n.T, c.pkg)
@@ -372,12 +377,51 @@ func (e *Engine) lookupVar(st *State, fr *Frame, name string, at *ssa.BasicBlock
 				continue
 			}
 			if best == nil || best.Block().Dominates(b) {
+				// a zero-value constant recorded for the declaration must not shadow the variable's real definition
+				if _, isConst := d.X.(*ssa.Const); isConst && best != nil {
+					if _, bestConst := best.X.(*ssa.Const); !bestConst {
+						continue
+					}
+				}
 				best = d
 			}
 		}
 	}
 	if best != nil {
+		if _, isConst := best.X.(*ssa.Const); isConst {
+			// The declaration's debug record may carry only the zero value; a later use of the variable records the
+			// real SSA value. Use it if that value is already defined on every path to this point.
+			for _, b := range fn.Blocks {
+				for _, in := range b.Instrs {
+					d, ok := in.(*ssa.DebugRef)
+					if !ok || d.IsAddr {
+						continue
+					}
+					id, ok := d.Expr.(*ast.Ident)
+					if !ok || id.Name != name {
+						continue
+					}
+					def, isInstr := d.X.(ssa.Instruction)
+					if !isInstr {
+						continue
+					}
+					if _, isPhi := d.X.(*ssa.Phi); isPhi {
+						continue
+					}
+					if _, have := fr.regs[d.X]; !have {
+						continue
+					}
+					if at != nil && !(def.Block() == at || def.Block().Dominates(at)) {
+						continue
+					}
+					return e.val(st, fr, d.X), true
+				}
+			}
+		}
 		v := e.val(st, fr, best.X)
+		if os.Getenv("GOVC_DEBUG") != "" {
+			fmt.Printf("  lookupVar %s -> %s = %v (isAddr %v)\n", name, best.X.Name(), v.L, best.IsAddr)
+		}
 		if best.IsAddr {
 			return st.loadAt(ptrInfo(v), deref(v.T)), true
 		}
